@@ -14,12 +14,12 @@ CLAIMED["C01"] = ("proof", CLAIMED["C12"][1],
 CLAIMED["C03"] = ("proof", CLAIMED["C12"][1] + "; regular-language membership via z3 (lazy regex abstraction)",
     "is_path_ignored's real body proved equivalent to the statement's decision formula for all names (file-name language equality, directory-name sandwich, subset/submodule/Meson/VCS clauses); relativised to the committed known finding; plus a bounded real-tree enumeration through iter_files (labelled bounded)",
     "assumes pathlib/os.stat/os.walk observers and Git's answer sets; iter_files' walk loop is exercised by the bounded tree enumeration only; names free of newlines", "4.3")
-CLAIMED["C05"] = ("other", "language inclusion of the real compiled matcher against the statement's glob language, decided by z3's regex solver per glob (all paths), globs enumerated to a bound",
+CLAIMED["C05"] = ("other", "language inclusion of the real compiled matcher against the statement's glob language, decided per glob for all paths by a derivative-based emptiness check (pyvc/rxempty.py; witnesses re-validated by z3 and by the real matcher) with z3's regex solver as fallback, globs enumerated to a bound",
     "for every glob over {a . / * \\} up to length 4 (quick) / 6 (thorough) the real _paths_regex is sandwiched between the narrow and wide reading for ALL paths (unbounded in the path, bounded in the glob)",
-    "bounded in the glob; trusts pyvc.rx and z3's regex theory; code points <= U+2FFFF", "4.5")
-CLAIMED["C17"] = ("other", "language equality of the two real compiled matchers (python-debian vs converted REUSE.toml glob), decided by z3 per pattern (all paths), patterns enumerated to a bound",
-    "for every legal dep5 pattern over {a / * ? \\} up to length 4 (quick) / 5 (thorough) the dep5 matcher and the converted REUSE.toml matcher are compared as languages for ALL paths; two known findings ('?' and '*/') are listed and every other difference is a violation",
-    "bounded in the pattern; content/ordering/command effects of the conversion are not yet under contract (see DESIGN 4.17)", "4.17")
+    "bounded in the glob; trusts pyvc.rx, pyvc.rxempty (cross-checked against z3 by tools/rxempty_crosscheck.py) and z3's regex theory; code points <= U+2FFFF", "4.5")
+CLAIMED["C17"] = ("other", "language equality of the two real compiled matchers (python-debian vs converted REUSE.toml glob), decided per pattern for all paths by a derivative-based emptiness check (pyvc/rxempty.py) with z3 as fallback, patterns enumerated to a bound; end-to-end conversion runs",
+    "for every legal dep5 pattern over {a / * ? \\} up to length 4 (quick) / 5 (thorough) the dep5 matcher and the converted REUSE.toml matcher are compared as languages for ALL paths; per-file copyright and licence before and after the real convert-dep5 for every ordered selection of up to 3/4 of 7 overlapping paragraphs; two known findings ('?' and '*/') are listed and every other difference is a violation",
+    "bounded in the pattern and in the paragraph selections; the conversion's code is not under contract (bounded end-to-end runs only)", "4.17")
 CLAIMED["C06"] = ("proof", CLAIMED["C12"][1],
     "set-algebra contracts on the real bodies ('+' helpers, used/unused getters, classification loops of FileReport.generate, bad/deprecated loop of ProjectReport.generate, _identifier_of_license), lemmas for the cross-consistency of missing/unused/bad taken from the statement, and a finite exhaustive obligation over the bundled SPDX lists; one listed known finding (LicenseRef- classed bad)",
     "assumes the license_map invariant established by _find_licenses (loop body not under contract), Licensing.license_keys, pathlib suffix/stem/name", "4.6")
@@ -63,7 +63,7 @@ CLAIMED["C09"] = ("proof", T + "; ReuseInfo.union / copy inlined from the real c
 CLAIMED["C10"] = ("proof", T + "; bounded repeated runs of the real command",
     "contracts on the real bodies of _create_new_header (the header text is a function of the three SETS, template, style and flags: no iteration order observable), create_header and place_header (no blank line added when a header existed); that every style finds the block its own writer produced and the byte-level fixpoint are bounded: every --style x single/multi x 3 requests x bodies, both file-type tables, option combinations, run 2 / 3 times (labelled bounded)",
     "comment_at_first_character / contains_reuse_info on the tool's own output are bounded only; --no-replace and a pre-commented template of a foreign style are excluded (stacking is their meaning)", "4.10")
-CLAIMED["C02"] = ("other", "regular-language equality of the real compiled _END_PATTERN against the star of all style terminators (z3 regex, all strings); bounded enumeration of style x form x tag line through the real reader; bounded window / snippet / error files",
+CLAIMED["C02"] = ("other", "regular-language equality of the real compiled _END_PATTERN against the star of all style terminators (all strings; derivative-based emptiness with z3 fallback); bounded enumeration of style x form x tag line through the real reader; bounded window / snippet / error files",
     "proved for all strings: the terminator language of the real _END_PATTERN equals 'any sequence of the multi-line terminators of all comment styles and the three special endings' (read from the real style table each run); bounded: every style x up to 10 line shapes x licence / copyright / contributor lines read back exactly; tags around the 4096-byte boundary with LF / CRLF / non-ASCII fillers, snippet marker, unparseable expressions; one listed known finding (copyright inside an ASCII-art frame)",
     "capture groups of backtracking regular expressions are not decided by the installed solvers: value exactness is bounded, not proved; find_spdx_tag / reuse_info_of_file bodies are not under contract", "4.2")
 NOT_YET = "check not built yet in this session (work in progress; see DESIGN.md section 4 for the planned contracts)"
